@@ -753,6 +753,9 @@ def main():
             elif req["k"] == "A":
                 from props import c18raw
                 ans = c18raw.do_A(req["spec"])
+            elif req["k"] in ("GREF", "GLIVE", "REJ"):
+                from props import c18gc
+                ans = getattr(c18gc, "do_" + req["k"])(req["spec"])
             else:
                 ans = {"error": "unknown request"}
         except Exception as e:  # interpreter bug or unexpected behaviour: report, keep serving
